@@ -46,7 +46,7 @@ func NewBarrier(count int, f func(msgTs uint64, b *Barrier), u func(vchannel str
 			case <-barrier.CloseChan:
 				return
 			case signal := <-barrier.BarrierSignalChan:
-				verifYield("barrier:signal", signal.VChannel, -1)
+				verifYield("barrier:signal", signal.VChannel, verifBarrierKey(signal.Msg))
 				if u != nil {
 					u(signal.VChannel, signal.Msg)
 				}
